@@ -7,6 +7,13 @@ WORDS = {2: "TWO", 3: "THREE", 4: "FOUR"}
 ROOT = os.path.dirname(os.path.dirname(os.path.abspath(__file__)))
 p = [json.loads(l) for l in open(os.path.join(ROOT, "properties.jsonl")) if json.loads(l)["id"] == pid][0]
 wt = "/tmp/seed-%s-%s" % (pid, tag)
+import glob
+done = []
+for mf in sorted(glob.glob(os.path.join(ROOT, "seeded", "*", "meta.json"))):
+    m = json.load(open(mf))
+    if pid in str(m.get("breaks_property", "")).replace(" ", "").split(","):
+        done.append("   - %s (%s)" % (os.path.basename(os.path.dirname(mf)).split("-", 1)[1], m.get("needs_to_manifest", "")))
+avoid = ("Other people have already delivered changes built on the following mechanisms; do NOT repeat any of them, find different ones (different functions, overloads, configurations, code paths):\n" + "\n".join(done)) if done and os.environ.get("SEED_AVOID", "1") == "1" else ""
 if not os.path.exists(wt):
     subprocess.check_call(["git", "-C", "/repo", "worktree", "add", "--detach", wt, "HEAD"], stdout=subprocess.DEVNULL, stderr=subprocess.DEVNULL)
 print("""You are helping to evaluate a verification framework by writing realistic *breaking changes* for a C++ library. You work ONLY inside the scratch git worktree {wt} (a checkout of the header-only C++14 library xtensor-stack/xtl: headers in include/xtl, tests in test/). Do not read or write anything under /verif or /repo (the worktree is your copy). No network.
@@ -21,8 +28,10 @@ Task: produce {countw} different, independent changes to the library sources (in
  (c) looks like something a maintainer could plausibly commit (a refactoring slip, an "optimisation", an off-by-one, a dropped normalisation step, a wrong operand, a reordered pair of steps, a removed guard on one overload) – not vandalism, no dead code, no comments pointing at the change,
  (d) needs something SPECIFIC to manifest – a multi-step sequence of operations, a particular size/alignment/boundary value, an unusual input, a particular template configuration, or two cooperating sites that each look fine alone – rather than being exposed at once by ordinary use. {focus}
 
+{avoid}
+
 For each change deliver, in {wt}/out/<n>/ (n = 1..{count}):
  * patch.diff – `git diff` of the library change only (relative to the worktree root, applies with `git apply` on a clean checkout),
  * demo.cpp – a small standalone program (g++ -std=c++14 -I include demo.cpp) that exits 0 and prints OK on the unchanged library and exits non-zero (prints what went wrong) with the change applied; it must demonstrate a violation of the property *statement*, not merely a difference in unspecified behaviour,
  * README.md – which clause of the property is broken, what is needed for it to manifest, and why the existing tests do not notice.
-Verify all of it yourself: for each change, on a clean worktree state (`git -C {wt} checkout -- include`) apply the patch, build+run the full test suite (must pass), build+run demo.cpp (must fail); then revert and run demo.cpp again (must pass). Leave the worktree clean of the library change at the end (`git -C {wt} checkout -- include`), keep only out/. Remove {wt}/_build when finished. The changes must touch different mechanisms. Report in your final message, for each change: one-paragraph description, the exact commands you ran and their outcomes.""".format(wt=wt, prop=json.dumps(p, indent=1), focus=focus, count=count, countw=WORDS.get(count, str(count))))
+Verify all of it yourself: for each change, on a clean worktree state (`git -C {wt} checkout -- include`) apply the patch, build+run the full test suite (must pass), build+run demo.cpp (must fail); then revert and run demo.cpp again (must pass). Leave the worktree clean of the library change at the end (`git -C {wt} checkout -- include`), keep only out/. Remove {wt}/_build when finished. The changes must touch different mechanisms. Report in your final message, for each change: one-paragraph description, the exact commands you ran and their outcomes.""".format(wt=wt, prop=json.dumps(p, indent=1), focus=focus, avoid=avoid, count=count, countw=WORDS.get(count, str(count))))
